@@ -199,7 +199,18 @@ func VerifC17_Queue() {
 		case 1: // ReadFrom (only when it cannot block: a packet is queued or the conn is closed)
 			if inHead < inTail || closed {
 				var p [4]byte
-				n, addr, err := c.ReadFrom(p[:])
+				rb := p[:]
+				short := !closed && verifapi.Bool("short read buffer")
+				if short {
+					rb = p[:1] // shorter than the packet: a PacketConn returns what fits, never more than len(p)
+				}
+				n, addr, err := c.ReadFrom(rb)
+				if short {
+					verifapi.Assert(err == nil && n == 1 && p[0] == in[inHead].b, "ReadFrom never reports more bytes than the caller's buffer holds")
+					verifapi.Assert(addr == addrs[in[inHead].addr], "a packet is delivered with the address it was queued under")
+					inHead++
+					continue
+				}
 				if closed {
 					verifapi.Cover("queue: read after close")
 					verifapi.Assert(err != nil, "ReadFrom fails after Close")
